@@ -306,8 +306,40 @@ def kernel_smooth_facts():
     return "".join(f"def {k} : String := {v}\n" for k, v in facts)
 
 
+def kernel_bbox_defaults():
+    """Partition.bbox: for each `key = bbox.get("key", float(ds.A.m1())) or float(ds.A.m2())` emit (key, "A.m1", "A.m2")."""
+    fn = find_func("wavespectra/partition/partition.py", "Partition.bbox")
+    rows = []
+
+    def axis_method(call):
+        # float(ds.<axis>.<method>())
+        if not (isinstance(call, ast.Call) and ast.unparse(call.func) == "float" and len(call.args) == 1):
+            raise Untranslatable("bbox default: " + ast.unparse(call))
+        inner = call.args[0]
+        if not (isinstance(inner, ast.Call) and not inner.args and isinstance(inner.func, ast.Attribute)
+                and isinstance(inner.func.value, ast.Attribute) and isinstance(inner.func.value.value, ast.Name)):
+            raise Untranslatable("bbox default: " + ast.unparse(call))
+        return f"{inner.func.value.attr}.{inner.func.attr}"
+
+    for node in ast.walk(fn):
+        if (isinstance(node, ast.Assign) and len(node.targets) == 1 and isinstance(node.targets[0], ast.Name)
+                and node.targets[0].id in ("fmin", "fmax", "dmin", "dmax") and isinstance(node.value, ast.BoolOp)):
+            v = node.value
+            if not (isinstance(v.op, ast.Or) and len(v.values) == 2 and isinstance(v.values[0], ast.Call)
+                    and ast.unparse(v.values[0].func) == "bbox.get" and len(v.values[0].args) == 2
+                    and isinstance(v.values[0].args[0], ast.Constant)):
+                raise Untranslatable("bbox default: " + ast.unparse(node))
+            rows.append((node.lineno, v.values[0].args[0].value, axis_method(v.values[0].args[1]), axis_method(v.values[1])))
+    if len(rows) != 4:
+        raise Untranslatable(f"bbox defaults: expected 4 limit assignments, found {len(rows)}")
+    rows.sort()
+    body = ", ".join(f'("{k}", "{a}", "{b}")' for _, k, a, b in rows)
+    return f"def bboxDefaults : List (String × String × String) := [{body}]\n"
+
+
+
 KERNELS = {"Tps": [kernel_tps, kernel_tp], "IsOverlap": [kernel_is_overlap], "Angle": [kernel_angle],
-           "LonConv": [kernel_is_180, kernel_is_360], "SmoothFacts": [kernel_smooth_facts]}
+           "LonConv": [kernel_is_180, kernel_is_360], "SmoothFacts": [kernel_smooth_facts], "BboxDefaults": [kernel_bbox_defaults]}
 # extra imports of a generated kernel file (helpers the kernel's grammar maps to)
 KERNEL_IMPORTS = {"LonConv": ["WsVerif.Model.Select"]}
 
